@@ -1,4 +1,5 @@
 """C03 - MinFlowDecomp (DAG) always finds a decomposition and it has the fewest paths."""
+import os
 import random
 import vlib
 import compose as C
@@ -62,6 +63,8 @@ def run(tier, seed):
     rng = random.Random(seed)
     known = vlib.load_known()
     insts = instances(tier, rng)
+    P.design_mc(res, "Adv_Peel", "MC_Peel.cfg", os.path.join(vlib.SPEC, "mc", "peel_cover.ndjson"),
+                what="Peel machine: residuals never negative; a step changes one residual by exactly the open route's weight")
     recs = P.drive(insts)
     res.evaluations = len(recs)
     P.validate(recs, PROP, res)
